@@ -171,6 +171,8 @@ def run(rep, facts, tier):
     rep.check(ok, 'R04.4', 'handle_repair_data_send_worker/answer-decided', 'requested sn => DATA, or sn put into the GAP set, or "all before first_available" recorded, on every path',
               'a requested sequence number can leave the repair worker with neither DATA sent nor a GAP recorded for it', rw.where())
     rule_04_9(rep, fx, rw, og, sends)
+    rule_04_10(rep, fx)
+    rule_04_11(rep, fx)
     # (b) a recorded GAP is always sent: on `!no_longer_relevant.is_empty()` or `all_irrelevant_before.is_some()` the message goes out
     alle = list(switch_edges(rw, fx, og))
     must_send = [(s_, t_) for s_, t_, cond, lab in alle if (cond[0] == 'call' and cond[1].endswith('::is_empty') and lab is False and term_has(cond, lambda x: x[0] == 'call' and x[1].endswith('BTreeSet::new')))
@@ -419,3 +421,99 @@ def rule_04_9(rep, fx, rw, og, sends):
                   'emits nothing, the number is then marked sent, and the request is answered neither with DATA nor with a GAP (a reader matched after the write has no pending gap)',
                   rw.where(bb))
     rep.floor('R04.9', n, 1, 'send_cache_change calls in the repair worker')
+
+
+RP = 'rtps::rtps_reader_proxy::RtpsReaderProxy::'
+
+
+def _strip4(t):
+    while isinstance(t, tuple) and t and t[0] in ('ref', 'deref', 'copy', 'move') and len(t) > 1 and isinstance(t[1], tuple):
+        t = t[1]
+    return t
+
+
+def rule_04_10(rep, fx):
+    """The pending-gap set is how a reader learns that a number is not for it. R04.2 checks that it is asked for; this rule checks that the asking has an effect and that
+    what was recorded is announced."""
+    rep.rule('R04.10', 'pending gaps take effect: insert_pending_gap(sn) inserts sn into pending_gap, set_pending_gap_up_to(n) extends it with the range 1..=n; in '
+                       'Writer::handle_ack_nack a non-empty pending-gap set of the acknowledging reader is sent as gap_msg(get_pending_gap(that proxy)) on every path '
+                       '(only an empty set sends nothing)')
+    b = fx.find(RP + 'insert_pending_gap')
+    rep.analysed(b)
+    og = Origins(b, summaries=False)
+    ins = [(bb, t) for bb, t in b.calls() if callee_res(t).endswith('BTreeSet::<T, A>::insert')]
+    ok = len(ins) == 1 and has_field(og.of_operand(ins[0][1]['args'][0], ins[0][0], 'term'), 'pending_gap') and _strip4(og.of_operand(ins[0][1]['args'][1], ins[0][0], 'term')) == ('param', 2) and \
+        all(Pos(b).every_path_passes(None, (r, 'term'), via_pos=[(ins[0][0], 'term')], from_entry=True) for r in b.return_blocks())
+    rep.check(ok, 'R04.10', 'insert_pending_gap/inserts', 'pending_gap.insert(seq_num) on every path', 'insert_pending_gap does not insert its argument into pending_gap: readers that must skip a '
+              'sample written for another reader are never told, and their reliable stream stalls before it', b.where())
+    b = fx.find(RP + 'set_pending_gap_up_to')
+    rep.analysed(b)
+    og = Origins(b, summaries=False)
+    ext = [(bb, t) for bb, t in b.calls() if callee_res(t).rsplit('::', 1)[-1] in ('extend', 'append', 'insert') and has_field(og.of_operand(t['args'][0], bb, 'term'), 'pending_gap')]
+    rng = [(bb, t) for bb, t in b.calls() if callee_res(t).endswith('SequenceNumberRange::new')]
+    ok = len(ext) >= 1 and len(rng) == 1 and _strip4(og.of_operand(rng[0][1]['args'][1], rng[0][0], 'term')) == ('param', 2) and \
+        term_has(og.of_operand(rng[0][1]['args'][0], rng[0][0], 'term'), lambda x: x[0] == 'const' and str(x[2]) == '1')
+    rep.check(ok, 'R04.10', 'set_pending_gap_up_to/extends', 'pending_gap gets the inclusive range 1..=last_gap_sn', 'set_pending_gap_up_to does not add the range 1..=last_gap_sn to pending_gap', b.where())
+    # announcement in handle_ack_nack
+    h = fx.find(W + 'handle_ack_nack')
+    rep.analysed(h)
+    og = Origins(h, summaries=True)
+    P = Pos(h)
+    edges = list(switch_edges(h, fx, og))
+    nonempty = [(s_, t_) for s_, t_, cond, lab in edges if ((cond[0] == 'call' and cond[1].endswith('::is_empty') and lab is False) or
+                                                           (cond[0] == 'un' and cond[1] == 'Not' and lab is True and term_has(cond, lambda x: x[0] == 'call' and x[1].endswith('::is_empty'))))
+                and (has_field(cond, 'pending_gap') or has_call(cond, 'get_pending_gap'))]
+    gaps = [(bb, 'term') for bb, t in h.calls() if call_matches(t, 'MessageBuilder::gap_msg') and
+            (has_field(og.of_operand(t['args'][1], bb, 'term'), 'pending_gap') or has_call(og.of_operand(t['args'][1], bb, 'term'), 'get_pending_gap'))]
+    sendm = [(bb, 'term') for bb, t in h.calls() if call_matches(t, 'Writer::send_message_to_readers')]
+    ok = bool(nonempty) and bool(gaps) and bool(sendm)
+    for s_, t_ in nonempty:
+        for r in h.return_blocks():
+            if P.can_reach((t_, 0), (r, 'term'), avoid_pos=gaps) or P.can_reach((t_, 0), (r, 'term'), avoid_pos=sendm):
+                ok = False
+    rep.check(ok, 'R04.10', 'handle_ack_nack/pending-gap-announced', 'pending_gap not empty => gap_msg(pending_gap) sent, on every path',
+              'Writer::handle_ack_nack does not send the GAP for a non-empty pending-gap set of the acknowledging reader on every path (or sends it only when the set is empty)', h.where())
+
+
+def rule_04_11(rep, fx):
+    """Fragment repair makes progress and ends: every fragment the repair worker takes from the requested set is taken off that set."""
+    rep.rule('R04.11', 'fragment repair terminates: in handle_repair_frags_send_worker every loop iteration that reaches its end calls mark_frag_sent(seq_num, frag_num) of the '
+                       'iterated pair; mark_frag_sent clears that bit and drops the entry when no bit is left (repair_frags_requested() = any bit set re-arms the timer); '
+                       'mark_all_frags_requested(sn, n) records n set bits for sn')
+    b = fx.find(W + 'handle_repair_frags_send_worker')
+    rep.analysed(b)
+    og = Origins(b, summaries=False)
+    P = Pos(b)
+    nxt = [(bb, t) for bb, t in b.calls() if callee_res(t).endswith('::next')]
+    marks = [(bb, t) for bb, t in b.calls() if callee_res(t).endswith('RtpsReaderProxy::mark_frag_sent')]
+    ok = bool(nxt) and len(marks) >= 1
+    for bb, t in marks:
+        a1, a2 = og.of_operand(t['args'][1], bb, 'term'), og.of_operand(t['args'][2], bb, 'term')
+        ok = ok and term_has(a1, lambda x: x[0] == 'call' and x[1].endswith('::next')) and term_has(a2, lambda x: x[0] == 'call' and x[1].endswith('::next'))
+    some = [(s_, t_) for s_, t_, cond, lab in switch_edges(b, fx, og) if lab == 'Some' and cond[0] == 'discr' and cond[1][0] == 'call' and cond[1][1].endswith('::next')]
+    ok = ok and bool(some)
+    for s_, t_ in some:
+        for nb, _t in nxt:
+            if P.can_reach((t_, 0), (nb, 'term'), avoid_pos=[(mb, 'term') for mb, _ in marks]):
+                ok = False
+    rep.check(ok, 'R04.11', 'handle_repair_frags_send_worker/marks-each-sent', 'every completed iteration marks its (seq_num, frag_num) sent',
+              'the fragment repair worker can finish an iteration without mark_frag_sent(seq_num, frag_num): the fragment stays requested, repair_frags_requested() stays true and the '
+              'same fragments are re-sent for ever', b.where())
+    m = fx.find(RP + 'mark_frag_sent')
+    rep.analysed(m)
+    ogm = Origins(m, summaries=False)
+    sets = [(bb, t) for bb, t in m.calls() if callee_res(t).endswith('BitVec::<B>::set') or callee_res(t).endswith('BitVec::set')]
+    rems = [(bb, t) for bb, t in m.calls() if callee_res(t).endswith('::remove') and has_field(ogm.of_operand(t['args'][0], bb, 'term'), 'frags_requested')]
+    okm = len(sets) == 1 and ogm.of_operand(sets[0][1]['args'][2], sets[0][0], 'term') in (('const', 'bool', False), ('const', 'int', 0)) and \
+        term_has(ogm.of_operand(sets[0][1]['args'][1], sets[0][0], 'term'), lambda x: x == ('param', 3) or (x[0] == 'deref' and x[1] == ('param', 3))) and len(rems) == 1 and \
+        _strip4(ogm.of_operand(rems[0][1]['args'][1], rems[0][0], 'term')) == ('param', 2)
+    rep.check(okm, 'R04.11', 'mark_frag_sent/clears', 'bit (frag_num - 1) := false, entry removed when empty', 'mark_frag_sent does not clear the bit of the fragment it is given (or never drops an emptied entry)', m.where())
+    a = fx.find(RP + 'mark_all_frags_requested')
+    rep.analysed(a)
+    oga = Origins(a, summaries=False)
+    insa = [(bb, t) for bb, t in a.calls() if callee_res(t).endswith('::insert') and has_field(oga.of_operand(t['args'][0], bb, 'term'), 'frags_requested')]
+    oka = len(insa) == 1 and _strip4(oga.of_operand(insa[0][1]['args'][1], insa[0][0], 'term')) == ('param', 2)
+    if oka:
+        v = oga.of_operand(insa[0][1]['args'][2], insa[0][0], 'term')
+        oka = term_has(v, lambda x: x[0] == 'call' and x[1].endswith('from_elem') and term_has(x[2][0], lambda y: y == ('param', 3)) and x[2][1] in (('const', 'bool', True), ('const', 'int', 1)))
+    rep.check(oka, 'R04.11', 'mark_all_frags_requested/records', 'frags_requested[seq_num] := frag_count bits, all set', 'mark_all_frags_requested does not record frag_count requested fragments for the sequence number', a.where())
